@@ -150,3 +150,73 @@ func TestCheckAfterSaveBesideConcurrentChecks(t *testing.T) {
 		evid.Nontrivial(evid.FP("memo", narrow, wide, pollers, rounds))
 	})
 }
+
+// A check that runs WHILE the account is being saved is decided by the rights
+// saved before or by the rights saved now — never by a mixture: when both
+// versions of the right permit the path, a concurrent check must permit it, and
+// when both refuse it, it must refuse. The two versions list the same patterns
+// in different orders / with insertions in front, so that the pattern that
+// decides sits at different positions.
+func TestCheckDuringSaveSeesOneVersion(t *testing.T) {
+	evid.Checks(16, 250)
+	rapid.Check(t, func(t *rapid.T) {
+		filler := rapid.IntRange(3, 200).Draw(t, "fillerPatterns")
+		var fill []string
+		for i := 0; i < filler; i++ {
+			fill = append(fill, fmt.Sprintf("/other/%d/*", i))
+		}
+		front := "/live/cam1;" + strings.Join(fill, ";")
+		back := strings.Join(fill, ";") + ";/live/cam1"
+		mid := strings.Join(fill[:filler/2], ";") + ";/live/+;" + strings.Join(fill[filler/2:], ";")
+		versions := []string{front, back, mid}
+		permitted, refused := "/live/cam1", "/vault/x"
+		checkers := rapid.IntRange(2, 8).Draw(t, "checkers")
+		saves := rapid.IntRange(100, 500).Draw(t, "saves")
+		install("c16during", front, front, false, false)
+		var stop int64
+		var wg sync.WaitGroup
+		var mu sync.Mutex
+		bad := ""
+		var checks int64
+		for i := 0; i < checkers; i++ {
+			wg.Add(1)
+			go func() {
+				defer wg.Done()
+				for atomic.LoadInt64(&stop) == 0 {
+					u := auth.Get("c16during")
+					if u == nil {
+						continue
+					}
+					p, r := u.ValidatePermission(permitted, auth.PullRight), u.ValidatePermission(refused, auth.PullRight)
+					atomic.AddInt64(&checks, 2)
+					if !p || r {
+						mu.Lock()
+						if bad == "" {
+							bad = fmt.Sprintf("a check concurrent with a save: %q permitted=%v (every version of the right permits it), %q permitted=%v (no version permits it)", permitted, p, refused, r)
+						}
+						mu.Unlock()
+						return
+					}
+				}
+			}()
+		}
+		for i := 0; i < saves; i++ {
+			v := versions[i%len(versions)]
+			install("c16during", v, v, false, true)
+			mu.Lock()
+			b := bad
+			mu.Unlock()
+			if b != "" {
+				break
+			}
+		}
+		atomic.StoreInt64(&stop, 1)
+		wg.Wait()
+		evid.Eval(atomic.LoadInt64(&checks))
+		if bad != "" {
+			evid.Violation(t, "check-during-save", map[string]any{"filler_patterns": filler, "checkers": checkers}, "%s (right lists of %d patterns, re-saved with the deciding pattern first / last / in the middle)", bad, filler+1)
+		}
+		evid.Class("checks during saves whose versions agree on the path")
+		evid.Nontrivial(evid.FP("during", filler, checkers, saves))
+	})
+}
